@@ -84,6 +84,7 @@ func runC02(c *Ctx) {
 	checkWrapperNotTakenForPacket(c, "R9")
 	// R10 (shared with C07.R4): a worker that panics on request data answers neither that request nor the ones behind it
 	c.withRule("R10", func() { checkServerPanicSites(c) })
+	checkIDMethods(c, "R11")
 	pos := func(in ssa.Instruction) string { return p.Pos(in.Pos()) }
 	handle := p.Func("handlePacket")
 	worker := p.Func("(*RequestServer).packetWorker")
@@ -1425,4 +1426,50 @@ func checkResponseObjectsPrivate(c *Ctx, rule string) {
 	}
 	// (the os-backed server's own statvfs helper exists only where the platform has statvfs; the handler path always does)
 	c.check(n >= 1, rule, "responses completed after a helper or handler built them", "?", fmt.Sprintf("%d sites", n), "no such site found (the statvfs reply of the request server expected)")
+}
+
+// checkIDMethods (C02.R11; shared as C03.R7 and C09.R9): id() is how every layer learns which request a packet belongs to —
+// the client's dispatcher files the reply channel under it, both servers copy it into the reply (the read-only refusal
+// of the os server has nothing else).  For every type of package sftp that has an ID field, id() returns that field.
+func checkIDMethods(c *Ctx, rule string) {
+	p := c.P
+	n := 0
+	for _, mem := range p.Sftp.Members {
+		t, ok := mem.(*ssa.Type)
+		if !ok {
+			continue
+		}
+		st, ok := t.Type().Underlying().(*types.Struct)
+		if !ok {
+			continue
+		}
+		hasID := false
+		for i := 0; i < st.NumFields(); i++ {
+			if st.Field(i).Name() == "ID" && !st.Field(i).Embedded() {
+				hasID = true
+			}
+		}
+		if !hasID {
+			continue
+		}
+		fn := p.methodOf(types.NewPointer(t.Type()), "id")
+		if fn == nil || fn.Blocks == nil || fn.Synthetic != "" {
+			continue
+		}
+		n++
+		good := true
+		got := ""
+		for _, rl := range returnLeaves(fn, 0) {
+			u, isLoad := rl.v.(*ssa.UnOp)
+			if !isLoad || u.Op != token.MUL {
+				good, got = false, rl.v.String()
+				continue
+			}
+			if _, name, _, ok := fieldOf(u.X); !ok || name != "ID" {
+				good, got = false, name
+			}
+		}
+		c.check(good, rule, "id() of "+t.Name()+" is its ID", p.Pos(fn.Pos()), "return p.ID", "id() of "+t.Name()+" returns "+got+", not the ID field: replies built from id() (the read-only refusal, every error status) go out under another request's id, and the client files the request under an id the reply will not carry")
+	}
+	c.check(n >= 25, rule, "id methods", "?", fmt.Sprintf("%d types with an ID field and an id method", n), fmt.Sprintf("only %d id methods found", n))
 }
